@@ -95,7 +95,8 @@ def collect(kind, flt=""):
             if os.path.exists(p) and flt in d:
                 meta = json.load(open(os.path.join(d, "meta.json")))
                 k = "benign" if meta.get("benign") else "seeded"
-                items.append((k, os.path.basename(d), p, ALL, [] if k == "benign" else [meta["property"]]))
+                exp = [] if (k == "benign" or meta["property"] not in ALL) else [meta["property"]]      # no check is claimed for C04: any report counts
+                items.append((k, os.path.basename(d), p, ALL, exp))
     return items
 
 
